@@ -8,6 +8,7 @@
 -- point, also over finite fields where equality of values does not imply equality of polynomials).
 -- `Total O` = every field inversion returns (no `hang`); it is only assumed where the code inverts.
 import WinterProofs.Lemmas.C20Batch
+import WinterProofs.Lemmas.C20Gen
 import WinterProofs.Lemmas.C20Div
 import Mathlib.Algebra.Field.Rat
 
@@ -371,5 +372,24 @@ theorem batch_inversion_conc_returns (hT : Total O) (threads : Nat) (vals : List
 example : batchInversionConc OQ 4 [2, 0, 4, 0] = .ok [1/2, 0, 1/4, 0] := by decide +kernel
 example : batchInversion OQ [2, 0, 4, 0] = .ok [1/2, 0, 1/4, 0] ∧ batchInversion OQ [] = .ok [] ∧
     batchInversion OQ [0, 0] = .ok [0, 0] := by decide +kernel
+
+/-! ## tie T: the polynomial functions as regenerated from math/src/polynom/mod.rs on this run
+
+`Gen.Polynom.*` (Winter/Gen/Polynom.lean) is what translate/gen.py makes of the Rust functions on every run:
+field-generic over an operations record, vectors as lists, index loops as structural recursion, `v[i]` with its
+bound in `_ok`.  For EVERY operations record `O` of the model and all inputs the regenerated function is the model
+function the theorems above are about and its no-panic condition holds.  (Proved so far: `eval`, `add`, `sub`,
+`mul_by_scalar`, `degree_of`; the other translated functions — `mul`, `div`, `syn_div`, `syn_div_in_place`,
+`syn_div_roots_in_place`, `remove_leading_zeros`, `fill_zero_roots`, `poly_from_roots`, `fill_power_series`,
+`serial_batch_inversion` — are evaluated next to the model by the driver on every line.) -/
+theorem gen_polynom_eq_model {α : Type} (O : Model.Poly.Ops α) (p q : List α) (x : α) :
+    (Gen.Polynom.eval O.toX p x = Model.Poly.eval O p x ∧ Gen.Polynom.eval_ok O.toX p x = true) ∧
+    (Gen.Polynom.add O.toX p q = Model.Poly.add O p q ∧ Gen.Polynom.add_ok O.toX p q = true) ∧
+    (Gen.Polynom.sub O.toX p q = Model.Poly.sub O p q ∧ Gen.Polynom.sub_ok O.toX p q = true) ∧
+    (Gen.Polynom.mul_by_scalar O.toX p x = Model.Poly.mulByScalar O p x ∧
+      Gen.Polynom.mul_by_scalar_ok O.toX p x = true) ∧
+    (Gen.Polynom.degree_of O.toX p = Model.Poly.degreeOf O p ∧ Gen.Polynom.degree_of_ok O.toX p = true) :=
+  ⟨C20G.gen_eval_eq O p x, C20G.gen_add_eq O p q, C20G.gen_sub_eq O p q, C20G.gen_mul_by_scalar_eq O p x,
+    C20G.gen_degree_of_eq O p⟩
 
 end WinterProofs.C20
